@@ -143,4 +143,5 @@ def run(n):
     return go
 
 
-TARGETS = [{"name": "c30_o3_q_bulk_keeps_relationship_multiset_%d" % k, "crate": "nervusdb-storage", "run": run(k)} for k in (1, 2, 3)]
+TARGETS = [{"name": "c30_o3_q_bulk_keeps_relationship_multiset_%d" % k, "crate": "nervusdb-storage", "run": run(k)} for k in (1, 2, 3)] + \
+          [{"name": "c30_o3_t_bulk_keeps_relationship_multiset_%d" % k, "crate": "nervusdb-storage", "run": run(k)} for k in (4, 5, 6)]
